@@ -58,6 +58,19 @@ func exprString(e ast.Expr) string {
 	return "?"
 }
 
+// exprString2 renders binary expressions as well (operands, operator, parentheses dropped).
+func exprString2(e ast.Expr) string {
+	switch x := e.(type) {
+	case *ast.BinaryExpr:
+		return exprString2(x.X) + " " + x.Op.String() + " " + exprString2(x.Y)
+	case *ast.ParenExpr:
+		return "(" + exprString2(x.X) + ")"
+	case *ast.UnaryExpr:
+		return x.Op.String() + exprString2(x.X)
+	}
+	return exprString(e)
+}
+
 func leanStr(s string) string { return fmt.Sprintf("%q", s) }
 
 func leanList(xs []string) string {
@@ -553,6 +566,56 @@ func main() {
 		})
 	}
 
+	// ---- the source-count guards of resume
+	// validateCompletedDumpSources: `if snapshot.NodeCount != graphEntry.NodeCount || snapshot.EdgeCount != graphEntry.EdgeCount { return error }`
+	completedGuard := "not-found"
+	if vf := p.funcs["validateCompletedDumpSources"]; vf != nil {
+		ast.Inspect(vf.Body, func(n ast.Node) bool {
+			ifs, ok := n.(*ast.IfStmt)
+			if !ok || ifs.Init != nil {
+				return true
+			}
+			if !strings.Contains(exprString2(ifs.Cond), "NodeCount") {
+				return true
+			}
+			returnsErr := false
+			for _, st := range ifs.Body.List {
+				if r, ok := st.(*ast.ReturnStmt); ok && len(r.Results) == 1 && exprString(r.Results[0]) != "nil" {
+					returnsErr = true
+				}
+			}
+			if returnsErr {
+				completedGuard = exprString2(ifs.Cond)
+			}
+			return true
+		})
+	}
+	// dumpGraph: `if checkpoint.HasSnapshot { if checkpoint.Snapshot != currentSnapshot { return error } }` (struct comparison: both counts)
+	currentGuard := "not-found"
+	if dg := p.funcs["dumpGraph"]; dg != nil {
+		ast.Inspect(dg.Body, func(n ast.Node) bool {
+			ifs, ok := n.(*ast.IfStmt)
+			if !ok {
+				return true
+			}
+			c := exprString2(ifs.Cond)
+			if strings.Contains(c, "Snapshot") && strings.Contains(c, "currentSnapshot") {
+				for _, st := range ifs.Body.List {
+					if r, ok := st.(*ast.ReturnStmt); ok && len(r.Results) > 0 && exprString(r.Results[len(r.Results)-1]) != "nil" {
+						currentGuard = c
+					}
+				}
+			}
+			return true
+		})
+	}
+	snapshotFields := []string{}
+	for _, f := range p.fields("graphEntitySnapshot") {
+		for _, n := range f.Names {
+			snapshotFields = append(snapshotFields, n.Name)
+		}
+	}
+
 	var out strings.Builder
 	out.WriteString("/- GENERATED by tools/extract/c19 from retriever/*.go on every check run. Do not edit. -/\nnamespace Dawgs.Generated.C19\n\n")
 	fmt.Fprintf(&out, "/-- fields of `DumpOptions` -/\ndef optionFields : List String := %s\n\n", leanList(optionFields))
@@ -569,6 +632,8 @@ func main() {
 	fmt.Fprintf(&out, "def saltParamIntoConfig : String := %s\ndef readerIntoConfig : String := %s\n\n", leanStr(saltParamIntoConfig), leanStr(readerIntoConfig))
 	fmt.Fprintf(&out, "/-- resume compares the two identity values as a whole (reflect.DeepEqual) -/\ndef comparesWholeIdentity : Bool := %s\n", leanBool(comparesWhole))
 	fmt.Fprintf(&out, "/-- `Dump` computes the expected identity from the options of the current call and hands it to the resume check -/\ndef identityFromCurrentOptions : Bool := %s\ndef resumeUsesThatIdentity : Bool := %s\n", leanBool(identityFromCurrentOptions), leanBool(resumeUsesThatIdentity))
+	fmt.Fprintf(&out, "\n/-- the refusal guard of `validateCompletedDumpSources` (operands, comparison operators and connective as written) -/\ndef completedSourceGuard : String := %s\n", leanStr(completedGuard))
+	fmt.Fprintf(&out, "/-- the refusal guard on the in-progress graph's snapshot in `dumpGraph` (a comparison of the whole snapshot struct) and the struct's fields -/\ndef currentSourceGuard : String := %s\ndef snapshotFields : List String := %s\n", leanStr(currentGuard), leanList(snapshotFields))
 	out.WriteString("\nend Dawgs.Generated.C19\n")
 	if err := os.WriteFile(os.Args[2], []byte(out.String()), 0o644); err != nil {
 		fail(err.Error())
